@@ -865,6 +865,12 @@ def strip_line_terminator(line: str) -> str:
     return line
 
 
+def line_terminator(source: str) -> str:
+    """The line terminator that the source uses (the one of its first line). \\n if it has none."""
+    terminator = re.search(r"\r\n|\r|\n", source)
+    return terminator.group() if terminator else "\n"
+
+
 @functools.lru_cache(maxsize=100)
 def _get_line_start_charnos(source: str) -> Sequence[int]:
     # Lines are numbered like the python parser numbers them, see split_lines.
